@@ -93,7 +93,73 @@ def unsupported_types():
     ]
 
 
+def foreign_mappings(out):
+    """every collections.abc.Mapping is accepted as input: mappingproxy, a hand-written read-only Mapping, ChainMap, OrderedDict,
+    a dict subclass -- through every converter that reads mappings (three tagged layouts, dataclass, struct literal, Dict,
+    TypedDict-like struct): the outcome is a value or ConvertError, and the same as for the equal plain dict"""
+    import collections
+    import collections.abc
+    import types as pytypes
+    import typing as t
+    import pane
+    from pane.annotations import Tagged
+    n = 0
+
+    class RO(collections.abc.Mapping):
+        def __init__(self, d):
+            self._d = dict(d)
+
+        def __getitem__(self, k):
+            return self._d[k]
+
+        def __iter__(self):
+            return iter(self._d)
+
+        def __len__(self):
+            return len(self._d)
+
+    class A(pane.PaneBase):
+        kind: t.Literal['a'] = 'a'
+        x: int = 0
+
+    class B(pane.PaneBase):
+        kind: t.Literal['b'] = 'b'
+    targets = [('internally tagged', t.Annotated[t.Union[A, B], Tagged('kind')]), ('externally tagged', t.Annotated[t.Union[A, B], Tagged('kind', external=True)]),
+               ('adjacently tagged', t.Annotated[t.Union[A, B], Tagged('kind', external=('t', 'c'))]), ('dataclass', A), ('struct literal', {'x': int}),
+               ('Dict[str, int]', t.Dict[str, int]), ('Optional[dataclass]', t.Optional[A]), ('List[tagged]', t.List[t.Annotated[t.Union[A, B], Tagged('kind')]])]
+    contents = [{'kind': 'a', 'x': 1}, {'kind': 'b'}, {'kind': 'zzz'}, {'x': 1}, {'a': {'x': 1}}, {'t': 'a', 'c': {'x': 2}}, {}, {'x': 'no'}, {'kind': 'a', 'x': 'no'}]
+    makers = [('mappingproxy', pytypes.MappingProxyType), ('read-only Mapping', RO), ('ChainMap', lambda d: collections.ChainMap(dict(d))),
+              ('OrderedDict', collections.OrderedDict), ('UserDict', collections.UserDict)]
+    with warnings.catch_warnings():
+        warnings.simplefilter('ignore')
+        for label, ty in targets:
+            for c in contents:
+                data0 = [c] if label == 'List[tagged]' else c
+                try:
+                    want = ('ok', repr(pane.from_data(data0, ty)))
+                except pane.ConvertError:
+                    want = ('error',)
+                except Exception as e:
+                    want = ('escape', type(e).__name__)
+                for mname, mk in makers:
+                    n += 1
+                    m = mk(c)
+                    data = [m] if label == 'List[tagged]' else m
+                    try:
+                        got = ('ok', repr(pane.from_data(data, ty)))
+                    except pane.ConvertError:
+                        got = ('error',)
+                    except Exception as e:
+                        out.violation(f'C04:foreign-mapping:{type(e).__name__}', f'from_data({mname}({c!r}), {label}) raised {type(e).__name__}: {str(e)[:120]}; the plain dict gives {want[0]}',
+                                      {'mapping': mname, 'content': repr(c), 'target': label})
+                        continue
+                    if got != want and want[0] != 'escape':
+                        out.violation('C04:foreign-mapping:differs', f'from_data({mname}({c!r}), {label}) gives {got}, the equal plain dict gives {want}', {'mapping': mname, 'content': repr(c), 'target': label})
+    return n
+
+
 def run(ctx, out):
+    out.evaluations += foreign_mappings(out)
     from pane.convert import make_converter
     from pane.errors import UnsupportedAnnotation
     out.rule = ('types from the grammar x values with adversarial leaves (unhashable / odd tags and keys, strings that make '
